@@ -325,6 +325,7 @@ def clockwait_worker(args):
             if plain is None:
                 wrap_sets(tp)
             readings = []
+            ticks = []
             state = {'t': ctx.int('t0', 0, 1439) if plain is None else plain['t0'], 'n': 0}
 
             class Now:
@@ -348,7 +349,14 @@ def clockwait_worker(args):
                     Ev.polls += 1
                     if Ev.polls > POLLS:
                         raise symx.Abort('poll bound')
-                    return True
+                    if timeout is None:
+                        return True
+                    # a tick inside the time-out, or the time-out running out first (clock thread held up)
+                    if plain is None:
+                        k = ctx.choose(2, 'tick-or-timeout')
+                        ticks.append(k)
+                        return k == 0
+                    return (plain['ticks'].pop(0) == 0) if plain.get('ticks') else True
                 def set(self): pass
                 def clear(self): pass
 
@@ -358,6 +366,7 @@ def clockwait_worker(args):
                     def start(self): pass
                 Event = Ev
             used = []
+            t_first = state['t']
             orig = tp.match
 
             def spy(h, m):
@@ -373,7 +382,7 @@ def clockwait_worker(args):
                 c.wait_until(tp)
             finally:
                 clock_mod.datetime, clock_mod.threading = saved
-            return readings, used
+            return readings, used, Ev.polls, t_first, list(ticks)
         n_paths = 0
         for ctx, out in symx.explore(harness, max_paths=args['max_paths'], timeout_ms=5000, stats=res.stats):
             if isinstance(out, symx.Abort):
@@ -381,16 +390,21 @@ def clockwait_worker(args):
                 continue
             if out is None:
                 break
-            readings, used = out
+            readings, used, polls, t_first, ticks = out
             n_paths += 1
             res.nontrivial += 1
-            if not used:
-                continue
-            h, m, r = used[-1]
             T = lambda x: z3.ToInt(symx.term(x))
-            shown = z3.Or(*[z3.And(T(h) == (T(t) / 60) % 24, T(m) == T(t) % 60) for t in readings])
-            spec = z3.Or(*[denotes(a, T(h), T(m)) for a in alts])
-            verdict, model = ctx.prove(z3.And(shown, spec))
+            # a wait that begins inside a matching minute ends at once, without waiting for a tick
+            at_call = z3.Or(*[denotes(a, (T(t_first) / 60) % 24, T(t_first) % 60) for a in alts])
+            prompt = z3.Implies(at_call, z3.BoolVal(polls == 0))
+            if not used:
+                verdict, model = ctx.prove(prompt)
+                h = m = None
+            else:
+                h, m, r = used[-1]
+                shown = z3.Or(*[z3.And(T(h) == (T(t) / 60) % 24, T(m) == T(t) % 60) for t in readings])
+                spec = z3.Or(*[denotes(a, T(h), T(m)) for a in alts])
+                verdict, model = ctx.prove(z3.And(shown, spec, prompt))
             res.reached.add('clock-wait')
             if verdict == 'unsat':
                 continue
@@ -398,23 +412,33 @@ def clockwait_worker(args):
                 res.inconclusive.append(text)
                 continue
             mv = {k: int(v) for k, v in ctx.model_values(model).items() if not isinstance(v, bool)}
+            mv['ticks'] = list(ticks)
             saved_ctx = symx.Ctx.cur
             symx.Ctx.cur = None
             try:
                 try:
-                    rd, us = harness(None, plain=mv)
+                    rd, us, pl, tf, _ = harness(None, plain=mv)
                 except symx.Abort:
-                    rd, us = [], []
+                    rd, us, pl, tf = [], [], 0, 0
             finally:
                 symx.Ctx.cur = saved_ctx
             ok = False
             desc = ''
+            shown_c = True
+            fmt = lambda t: '%d:%02d' % ((t // 60) % 24, t % 60)
+            den_t = lambda t: any(((t // 60) % 24, t % 60) in set(spec_times(a)) for a in alts)
             if us:
                 hh, mm, _ = us[-1]
                 shown_c = any((hh, mm) == ((t // 60) % 24, t % 60) for t in rd)
                 den = any((hh, mm) in set(spec_times(a)) for a in alts)
                 ok = not (shown_c and den)
-                desc = 'the wait ended on %d:%02d; wall clock readings were %s' % (hh, mm, ['%d:%02d' % ((t // 60) % 24, t % 60) for t in rd])
+                desc = 'the wait ended on %d:%02d; wall clock readings were %s' % (hh, mm, [fmt(t) for t in rd])
+            if not ok and den_t(tf) and pl > 0:
+                ok = True
+                shown_c = True
+                desc = 'the wait began at %s, which the list denotes, but waited for %d tick(s) before it looked at the clock (readings %s)' % (fmt(tf), pl, [fmt(t) for t in rd])
+                res.violation('clock-wait|not-prompt', '%s: %s' % (text, desc), inputs={'script': text, 'values': mv}, replayed=True)
+                break
             res.violation('clock-wait|%s' % ('time-never-shown' if us and not shown_c else 'time-not-denoted'),
                           '%s: %s' % (text, desc), inputs={'script': text, 'values': mv}, replayed=ok)
             break
